@@ -104,10 +104,11 @@ def check_native(c: Contract, inputs: dict[str, Any], call: Callable[..., Any] |
 	old_ns = native_ns({**c.consts, **copy.deepcopy(dict(inputs))})
 	for k in c.lets:
 		old_ns[k] = ns[k]
-	fn = call or import_real(c.file, c.qualname)
+	adapter = REG.replays.get(c.replay) if c.replay else None
+	fn = call or adapter or import_real(c.file, c.qualname)
 	src = source.load(c.file).funcs[c.qualname]
 	argnames = [a.arg for a in src.node.args.posonlyargs + src.node.args.args]
-	if src.kind in ('method', 'classmethod', 'property') and call is None:
+	if src.kind in ('method', 'classmethod', 'property') and call is None and adapter is None:
 		argnames = argnames[1:]
 	args = {k: v for k, v in inputs.items() if k in argnames or k in [a.arg for a in src.node.args.kwonlyargs]}
 	exact = {e: cond for e, cond in c.raises.items() if cond is not None}
